@@ -20,6 +20,9 @@ Checking requests (`<op> <args…> => <implementation output>`, answered `model=
   wmodel2c / lmodel2c / wmodel1c / lmodel1c <…> <plainhex> => <hex>   the COMPRESSED writers: byte-exact with the
                                            compressor's output taken from the implementation's bytes, and the
                                            harness-decompressed payload = the model's uncompressed payload
+  ptrace <a|r<id>|f<id>|u<id>,…> => ok <n>   the page-event trace recorded by the hooks in protocol/buffer.go during a
+                                           sequential decode/hold/release/encode scenario is accepted by the LTS of
+                                           Model/Pages (trace acceptance): no page is handed out again while a count is held
   pages <holders> <churners> <rounds> => ok   observational page-safety test (held key/value bytes intact while
                                            other decodes recycle pooled pages); Lean side: Props/C05 pages_safe
 Encoding requests (no ` => `; answered with hex or `error`):
@@ -31,6 +34,7 @@ import KafkaVerif.Spec.Crc
 import KafkaVerif.Spec.RecordBatch
 import KafkaVerif.Model.RecordWriter
 import KafkaVerif.Model.RecordReader
+import KafkaVerif.Model.Pages
 
 namespace KV.OracleC05
 open KV KV.RW KV.Spec.RB
@@ -176,6 +180,34 @@ def checkWire (tag : String) (bytes : Bytes) (zs : List Z) (impl : String) : Str
         then showRecs loose (Model.RecordReader.clientFetch crcs (decWith zs) bytes) else spec
       s!"model={model} holds={if spec == impl && prodOk && oneBatch && (!reject || !complete) then 1 else 0}"
 
+/-! ### page traces (hooks in protocol/buffer.go) replayed through Model/Pages -/
+
+/-- replay `a` (alloc), `r<id>` (reuse from the pool), `f<id>` (ref), `u<id>` (unref); real page ids are mapped to
+the model's ids in order of allocation.  Returns the number of accepted events or the index of the rejected one. -/
+def replayPages : List String → Nat → Model.Pages.PState → List (Nat × Nat) → Except Nat (Model.Pages.PState)
+  | [], _, s, _ => .ok s
+  | e :: es, k, s, ids =>
+    let arg := (e.drop 1).toString.toNat?
+    let lookup (p : Nat) : Option Nat := (ids.find? (·.1 == p)).map (·.2)
+    let ev : Option (Model.Pages.PEvent × List (Nat × Nat)) :=
+      if e == "a" then some (.allocPage, ids ++ [(ids.length, s.fresh)])
+      else match arg with
+        | none => none
+        | some p =>
+          match lookup p with
+          | none => none
+          | some m =>
+            if e.startsWith "r" then (s.pool.idxOf? m).map (fun i => (.reusePage i, ids))
+            else if e.startsWith "f" then some (.ref m, ids)
+            else if e.startsWith "u" then some (.unref m, ids)
+            else none
+    match ev with
+    | none => .error k
+    | some (pe, ids') =>
+      match Model.Pages.step s pe with
+      | none => .error k
+      | some s' => replayPages es (k + 1) s' ids'
+
 /-! ### requests -/
 
 def parseRecsV2 (s : String) : Option (List RecV2) :=
@@ -200,6 +232,12 @@ def step (line : String) : String :=
         match zargs.mapM (parseZ bytes) with
         | none => "bad-op"
         | some zs => checkWire tag bytes zs impl
+    | ["ptrace", evs] =>
+      let es := if evs == "-" then [] else evs.splitOn ","
+      let model := match replayPages es 0 Model.Pages.init [] with
+        | .ok _ => s!"ok {es.length}"   -- counts never released only keep pages out of the pool (GC frees them)
+        | .error k => s!"rejected-at-{k}"
+      s!"model={model} holds={if model == impl then 1 else 0}"
     | ["pages", _, _, _] => s!"model=ok holds={if impl == "ok" then 1 else 0}"
     | ["crc", kind, hx] =>
       match ofHex hx with
